@@ -87,7 +87,7 @@ def default_init(name, args):
     return (1.0,)
 
 
-def check_series(ctx, mon, who, name, series, n_paths, n_steps, dtype_want, init, kind, sig, exact0=True, explosive=False):
+def check_series(ctx, mon, who, name, series, n_paths, n_steps, dtype_want, init, kind, sig, exact0=True, explosive=False, overflow_hint=False):
     """series: tensor; kind in price / variance / volatility / real. Returns False after recording a violation."""
     def bad(key, msg, **kw):
         ctx.violation(mon, key, f"{who}: {name} {msg}", sig=sig, **kw)
@@ -103,8 +103,8 @@ def check_series(ctx, mon, who, name, series, n_paths, n_steps, dtype_want, init
         if dtype_want in (torch.float16, torch.bfloat16) and ("generate_cir" in who or "generate_heston" in who):
             # exp(-kappa dt) rounds to 1 in half precision -> zero conditional variance -> 0 * inf in the QE step
             key = "cir.half_precision_nan"
-        elif dtype_want in (torch.float16, torch.bfloat16) and "generate_kou_jump" in who:
-            # exp((mu - lambda m) t) is formed as a separate factor and overflows 16-bit floats although the price itself is representable
+        elif "generate_kou_jump" in who and overflow_hint:
+            # exp((mu - lambda m) t) is formed as a separate factor and overflows the dtype although the price itself is representable
             key = "kou.half_precision_factor_overflow"
         return bad(key, f"is not finite at {i}", where=i)
     half = dtype_want in (torch.float16, torch.bfloat16)
@@ -188,7 +188,13 @@ def _mk_gen(name):
                         ok = False
                 else:
                     kind = "price" if name in EXPO else ("variance" if name == "generate_cir" else "real")
-                    ok = check_series(ctx, mon, who, "output", out, n_paths, n_steps, dtype, init[0], kind, sig)
+                    hint = False
+                    if name == "generate_kou_jump":
+                        eu, ed, pu = 1 / args["jump_mean_up"], 1 / args["jump_mean_down"], args["jump_up_prob"]
+                        m_ = (1 - pu) * ed / (ed + 1) + pu * eu / (eu - 1) - 1
+                        drift = abs(args["mu"] - args["jump_per_year"] * m_) * args["dt"] * max(n_steps - 1, 0)
+                        hint = drift > 0.8 * math.log(float(torch.finfo(dtype).max))
+                    ok = check_series(ctx, mon, who, "output", out, n_paths, n_steps, dtype, init[0], kind, sig, overflow_hint=hint)
                 if ok:
                     ctx.ok(mon, sig=sig)
             except Exception as ex:
@@ -329,7 +335,8 @@ def drv_generators(ctx, k, rng):
         elif name in ("generate_cir", "generate_vasicek"):
             theta = float(pick(rng, [0.04, 0.01]))
             if nondefault:
-                kw["init_state"] = pick(rng, [(scal(rng, 0.09, dtype),), (0.0,), (scal(rng, 0.001, dtype),), (theta,)])
+                # tuple form and the bare-scalar form cast_state accepts, incl. the boundary value zero in every spelling
+                kw["init_state"] = pick(rng, [(scal(rng, 0.09, dtype),), (0.0,), (scal(rng, 0.001, dtype),), (theta,), 0.0, 0, torch.tensor(0.0), 0.07])
             sig = float(pick(rng, [1.0, 2.0])) if (regime == "low_variance" and name == "generate_cir") else 0.2 if name == "generate_cir" else 0.04
             fn(n_paths, n_steps, kappa=float(pick(rng, [1.0, 0.2, 5.0])), theta=theta, sigma=sig, **kw)
         elif name == "generate_heston":
@@ -364,7 +371,10 @@ def drv_generators(ctx, k, rng):
         else:
             if nondefault:
                 kw["init_state"] = pick(rng, [(scal(rng, 1.7, dtype),), scal(rng, 0.4, dtype)])
-            fn(n_paths, n_steps, P.lv_sigma, **kw)
+            # local-volatility functions users write: derived from (t, s), a python constant, a default-dtype tensor, a float64 table value
+            sfn = pick(rng, [P.lv_sigma, P.lv_sigma, lambda t, s: 0.25, lambda t, s: torch.tensor(0.2), lambda t, s: torch.tensor(0.3, dtype=F64),
+                             lambda t, s: torch.full_like(s, 0.15)])
+            fn(n_paths, n_steps, sfn, **kw)
     except RuntimeError as ex:
         if half and ("not implemented" in str(ex) or "Half" in str(ex) or "BFloat16" in str(ex) or "expected scalar type" in str(ex)
                      or "same dtype" in str(ex) or "must have the same dtype" in str(ex)):
@@ -405,7 +415,7 @@ def rand_init(rng, kind, prim):
     if kind == "heston":
         return pick(rng, [None, (1.2, 0.09), (0.9, prim.theta), (1.0, 0.0)])
     if kind in ("cir", "vasicek"):
-        return pick(rng, [None, (0.1,), (0.0,), (prim.theta,), (0.003,)])
+        return pick(rng, [None, (0.1,), (0.0,), (prim.theta,), (0.003,), 0.0, torch.tensor(0.0), 0.06])
     return pick(rng, [None, (1.2, 0.02), (1.0, prim.xi), (0.5, 0.2)])
 
 
